@@ -135,6 +135,7 @@ func cmdFunc(args []string) {
 		fmt.Fprintln(os.Stderr, err)
 		os.Exit(2)
 	}
+	applyTemplates(P, C)
 	sem := make(chan struct{}, 16)
 	fails := 0
 	for _, k := range keys {
@@ -174,6 +175,7 @@ func cmdSweep(args []string) {
 		fmt.Fprintln(os.Stderr, err)
 		os.Exit(2)
 	}
+	applyTemplates(P, C)
 	sem := make(chan struct{}, 16)
 	type job struct{ res *FuncResult }
 	var results []*FuncResult
